@@ -32,6 +32,9 @@ pub mod tags;
 #[cfg(feature = "tokio")]
 pub mod tokio;
 pub mod transport;
+#[cfg(feature = "verif-hooks")]
+#[doc(hidden)]
+pub mod verif;
 
 pub use crate::bytes::{ByteSlice, Bytes};
 #[cfg(all(feature = "derive", feature = "introspection"))]
